@@ -25,6 +25,7 @@ type AuthScenario struct {
 	ID          string   `json:"id"`
 	Path        string   `json:"path"`
 	Neighbour   string   `json:"neighbour"`
+	Cut         string   `json:"cut"`
 	First       string   `json:"first"`
 	Pipe        string   `json:"pipe"`
 	Timing      string   `json:"timing"`
@@ -106,8 +107,89 @@ func packFrame(mtype byte, seq int32, method string, body interface{}, stat *erp
 	return w.Bytes()
 }
 
-// two byte tokens of the same length
-const authBytesGood, authBytesBad = "token:VALID:7f3a91c2", "token:WRONG:0000aaaa"
+// two byte tokens of the same length: a public part (who the client claims to be) followed by the secret.  The public part
+// is longer than an AUTH_REPLY frame, so that a receive buffer reused for a reply in between still holds the whole secret.
+const authBytesPublic = "token:alice@example.com:"
+const authBytesGood, authBytesBad = authBytesPublic + "VALID:7f3a91c2-5be04d1796a8c3f2e0b14d67a9c85f30", authBytesPublic + "WRONG:0000aaaa-00000000000000000000000000000000"
+
+// authPublicLen is the length of the public part of a byte token.
+const authPublicLen = len(authBytesPublic)
+
+// splitPoint returns where a raw frame is cut for the timing class "split": inside the size prefix, inside the frame
+// header, right after the header (before the body codec and the body), or inside the body (for byte tokens: after the
+// public part of the credential).
+func splitPoint(frame []byte, cut string, bytesToken bool) int {
+	// size(4) xferlen(1) xfer seqlen(1) seq mtype(1) methodlen(1) method statuslen(2) status metalen(2) meta codec(1) body
+	p := 4
+	p += 1 + int(frame[p])
+	hdr := p
+	p += 1 + int(frame[p])
+	p++
+	p += 1 + int(frame[p])
+	p += 2 + int(frame[p])<<8 + int(frame[p+1])
+	p += 2 + int(frame[p])<<8 + int(frame[p+1])
+	k := len(frame) / 2
+	switch cut {
+	case "insize":
+		k = 2
+	case "inhdr":
+		k = hdr + (p-hdr)/2
+	case "afterhdr":
+		k = p
+	case "midcred":
+		body := p + 1
+		if bytesToken {
+			k = body + authPublicLen
+		} else {
+			k = body + (len(frame)-body)/2
+		}
+	}
+	if k >= len(frame) {
+		k = len(frame) - 1
+	}
+	if k < 1 {
+		k = 1
+	}
+	return k
+}
+
+// authNeighbourBefore is another connection of the process, to another peer with a checker of its own, that authenticates
+// with a valid byte token (a frame of exactly the layout of the observed client's) and leaves again (a session that
+// stays keeps a receive buffer to itself while its reader waits): the returned function closes that peer.
+func authNeighbourBefore(n int) func() {
+	srv2 := erpc.NewPeer(erpc.PeerConfig{}, auth.NewCheckerPlugin(func(sess auth.Session, recv auth.RecvOnce) (interface{}, *erpc.Status) {
+		var tok []byte
+		if st := recv(&tok); !st.OK() || string(tok) != authBytesGood {
+			return nil, erpc.NewStatus(erpc.CodeUnauthorized, "Unauthorized", "bad token")
+		}
+		return "welcome", nil
+	}))
+	a2, b2 := Pipe(fmt.Sprintf("NC%d", n), fmt.Sprintf("NS%d", n))
+	got := make(chan struct{})
+	go func() {
+		var once sync.Once
+		buf := make([]byte, 4096)
+		for {
+			k, err := a2.Read(buf)
+			if k > 0 {
+				once.Do(func() { close(got) })
+			}
+			if err != nil {
+				once.Do(func() { close(got) })
+				return
+			}
+		}
+	}()
+	a2.Write(packFrame(erpc.TypeAuthCall, 1, "", []byte(authBytesGood), nil))
+	srv2.ServeConn(b2)
+	select {
+	case <-got:
+	case <-time.After(time.Second):
+	}
+	a2.Close()
+	WaitUntil(time.Second, func() bool { return srv2.CountSession() == 0 })
+	return func() { srv2.Close() }
+}
 
 // authNeighbour is another connection of the process, to another peer with a checker of its own: once the observed
 // connection's checker has received its token, the neighbour authenticates with a valid token (a frame of exactly the
@@ -150,13 +232,18 @@ func authNeighbour(n int, aRecv, bRecv, aDone chan struct{}) {
 }
 
 func runAuth(rec *Rec, sc *AuthScenario, n int, rnd *rand.Rand) {
-	rec.SetTrace(sc.ID, map[string]interface{}{"mode": "auth", "path": sc.Path, "neighbour": sc.Neighbour, "first": sc.First, "pipe": sc.Pipe, "timing": sc.Timing,
+	rec.SetTrace(sc.ID, map[string]interface{}{"mode": "auth", "path": sc.Path, "neighbour": sc.Neighbour, "cut": sc.Cut, "first": sc.First, "pipe": sc.Pipe, "timing": sc.Timing,
 		"hookpos": sc.HookPos, "hookverdict": sc.HookVerdict, "expestablished": sc.Established})
 	app := NewApp(rec, nil)
 	CurApp = app
 	bytesMode := sc.First == "authgoodbytes" || sc.First == "authbadbytes"
 	aRecv, bRecv, aDone := make(chan struct{}), make(chan struct{}), make(chan struct{})
 	var aOnce sync.Once
+	if sc.Neighbour == "before" {
+		// one processor: this connection's reader runs where the neighbour's reader ran
+		old := runtime.GOMAXPROCS(1)
+		defer runtime.GOMAXPROCS(old)
+	}
 	if sc.Neighbour == "good" {
 		// one processor: the neighbour's reader runs where this connection's reader ran (and finds what that one left
 		// in the processor-local caches of the process)
@@ -187,7 +274,7 @@ func runAuth(rec *Rec, sc *AuthScenario, n int, rnd *rand.Rand) {
 				rec.Emit("AuthOK")
 				return "welcome", nil
 			}
-			rec.Emit("AuthFail", "why", "token")
+			rec.Emit("AuthFail", "why", "token", "got", fmt.Sprintf("%q", tok))
 			return nil, erpc.NewStatus(erpc.CodeUnauthorized, "Unauthorized", "bad token")
 		}
 		if st := recv(&token); !st.OK() {
@@ -306,7 +393,19 @@ func runAuth(rec *Rec, sc *AuthScenario, n int, rnd *rand.Rand) {
 			mu.Unlock()
 		}
 	}()
-	if sc.Timing == "atonce" {
+	splitAt := 0
+	if sc.Neighbour == "before" {
+		// the neighbour authenticates (successfully) right before this client sends anything (the scripted client's reader
+		// is given time to start first: it takes a receive buffer of its own and waits)
+		time.Sleep(2 * time.Millisecond)
+		defer authNeighbourBefore(n)()
+	}
+	if sc.Timing == "split" && len(first) > 1 {
+		// the first frame is delivered in two pieces: the first piece now, the rest after a pause
+		splitAt = splitPoint(first, sc.Cut, bytesMode)
+		a.Write(first[:splitAt])
+		rec.Emit("ClientPiece", "sent", splitAt, "of", len(first), "cut", sc.Cut)
+	} else if sc.Timing == "atonce" {
 		a.Write(append(append([]byte(nil), first...), rest...))
 	} else {
 		a.Write(first)
@@ -339,6 +438,18 @@ func runAuth(rec *Rec, sc *AuthScenario, n int, rnd *rand.Rand) {
 			served <- s
 		}()
 	}
+	if splitAt > 0 {
+		// the pause: the server takes the first piece (a Read of its own on the server side: nothing else is in the
+		// connection) and must go on waiting; the client watches for any response, then sends the rest of its first
+		// frame and what it pipelines behind it
+		WaitUntil(2*time.Second, func() bool { return a.Unread() == 0 || atomic.LoadInt32(&clientEOF) == 1 })
+		time.Sleep(20 * time.Millisecond)
+		mu.Lock()
+		rec.Emit("ClientWatch", "taken", a.Unread() == 0, "authreplies", authReplies, "callreplies", callReplies, "otherframes", otherFrames, "eof", atomic.LoadInt32(&clientEOF) == 1)
+		mu.Unlock()
+		rec.Emit("ClientComplete")
+		a.Write(append(append([]byte(nil), first[splitAt:]...), rest...))
+	}
 	if sc.Timing == "stepwise" {
 		select {
 		case <-gotAuthReply:
@@ -359,6 +470,10 @@ func runAuth(rec *Rec, sc *AuthScenario, n int, rnd *rand.Rand) {
 		case <-time.After(3 * time.Second):
 			rec.Emit("ServeHang")
 		}
+	}
+	// an established session handles what was pipelined (bounded wait: the handlers run in goroutines of their own)
+	if sess != nil && sc.Established {
+		WaitUntil(2*time.Second, func() bool { return atomic.LoadInt64(&app.Enters) >= int64(sc.Handled) })
 	}
 	// settle
 	last := rec.Count()
